@@ -120,8 +120,46 @@ def child_main(path):
     from qv import rt  # noqa: F401  import the repo before auditing
     if job.get('audit'):
         sys.addaudithook(hook)
+    calls = {}
+    if job.get('callmon') and hasattr(sys, 'monitoring'):
+        # "nondeterminism sanitizer": calls made from /repo frames into clocks, random sources, uuid, environment
+        import random
+        import time
+        import datetime as _dt
+        import uuid
+        watched = {time.time: 'time.time', time.monotonic: 'time.monotonic', time.perf_counter: 'time.perf_counter',
+                   time.time_ns: 'time.time_ns', os.urandom: 'os.urandom', random.random: 'random.random',
+                   random.randint: 'random.randint', random.choice: 'random.choice', random.shuffle: 'random.shuffle',
+                   uuid.uuid4: 'uuid.uuid4', os.getpid: 'os.getpid', os.getcwd: 'os.getcwd', id: 'id', hash: 'hash'}
+        repo = os.environ.get('QV_REPO', '/repo')
+        mon_ = sys.monitoring
+        TOOL = 3
+        try:
+            mon_.use_tool_id(TOOL, 'qv-c20')
+
+            def on_call(code, offset, callable_, arg0):
+                try:
+                    name = watched.get(callable_)
+                except TypeError:
+                    name = None
+                if name is None and getattr(callable_, '__self__', None) is not None:
+                    owner = type(callable_.__self__).__name__
+                    if owner == 'Random' or (owner == 'type' and getattr(callable_, '__name__', '') in ('now', 'utcnow', 'today')):
+                        name = f'{owner}.{getattr(callable_, "__name__", "?")}'
+                if name is not None and code.co_filename.startswith(repo):
+                    key = f'{name} <- {os.path.relpath(code.co_filename, repo)}:{code.co_name}'
+                    calls[key] = calls.get(key, 0) + 1
+            mon_.register_callback(TOOL, mon_.events.CALL, on_call)
+            mon_.set_events(TOOL, mon_.events.CALL)
+        except Exception as e:  # noqa: BLE001
+            calls['monitor-unavailable'] = str(e)
     res = observe_batch(job['sources'], job['configs'])
-    print('RESULT' + json.dumps({'digests': res, 'audit': events[:20]}))
+    if job.get('callmon') and hasattr(sys, 'monitoring'):
+        try:
+            sys.monitoring.set_events(3, 0)
+        except Exception:
+            pass
+    print('RESULT' + json.dumps({'digests': res, 'audit': events[:20], 'calls': calls}))
 
 
 def spawn(job, env_extra, cwd):
@@ -202,12 +240,18 @@ def run_case(case):
         j = dict(job)
         j['clock'] = clock
         j['audit'] = audit
+        j['callmon'] = (name == 'hash2')
         res, err = spawn(j, env, cwd)
         st['child_processes'] += 1
         if res is None:
             problems.append(f'{name}: {err}')
             continue
         obs[name] = res['digests']
+        if name == 'hash2':
+            st['callmon_children'] = st.get('callmon_children', 0) + 1
+            for k_, v_ in (res.get('calls') or {}).items():
+                st.setdefault('nondeterminism_call_sites', [])
+                st['nondeterminism_call_sites'] = sorted(set(st['nondeterminism_call_sites']) | {k_})
         if res['audit']:
             st['audit_events'] += len(res['audit'])
             st.setdefault('audit_event_list', [])
